@@ -1119,7 +1119,7 @@ class Simplifier:
 
                 # Eliminate
                 for other, complement in pairs[frozenset((a, b))]:
-                    op.replace(complement)
+                    op.replace(complement.copy())
                     other.replace(complement)
 
         return expression
